@@ -41,6 +41,8 @@ def run_case(ctx, case):
     pieces = [curve_state(x) for x in r[1]]
     same = m[0] == "ok" and [model_curve_state(x) for x in m[1]] == pieces
     l2(rec, "curve.split", case, pieces, m, same)
+    ns_ = list(knots) if nodes is None else list(nodes)
+    unit_matrix(rec, drv, case, "ops.split", lambda: heavy.Operations.split_curve(tuple(U), tuple(ns_)), "ops.split", list(U), ns_, multi=True)
     cuts = sorted(set([U[0], U[-1]] + (list(knots) if nodes is None else list(nodes))))
     if len(pieces) != len(cuts) - 1:
         rec.violation("wrong number of pieces", case, observed=len(pieces), expected=len(cuts) - 1)
